@@ -356,6 +356,20 @@ SigFacts evaluate(const SigView &v) {
 			const AggChain &p = v.agg[i - 1];
 			if (p.index.size() != c.index.size() + 1 || !std::equal(c.index.begin(), c.index.end(), p.index.begin())) { ok = false; f.why = "index continuation"; }
 		}
+		// metadata records (INT-11): a padding element comes first, is a TLV8 with the N and F flags and the value 01 or 01 01, and
+		// makes the record's length even; a record without padding must not have the length and first octet of an imprint
+		for (auto &l : c.links) if (l.kind == 2) {
+			const std::string &m = l.sib;
+			std::vector<Tlv> els;
+			bool seq = Tlv::parse_all(m, els);
+			bool has_pad = false;
+			if (seq) for (auto &e : els) if (e.tag == 0x1e) has_pad = true;
+			if (has_pad) {
+				const Tlv &p0 = els[0];
+				bool tlv8 = !m.empty() && !((unsigned char)m[0] & 0x80);
+				if (p0.tag != 0x1e || !tlv8 || !p0.nc || !p0.fwd || !(p0.val == std::string("\x01", 1) || p0.val == std::string("\x01\x01", 2)) || m.size() % 2) { ok = false; f.why = "metadata padding"; }
+			} else if (!m.empty() && hash_len((unsigned char)m[0]) != 0 && (size_t)hash_len((unsigned char)m[0]) + 1 == m.size()) { ok = false; f.why = "metadata could be read as an imprint"; }
+		}
 		std::string out; int el;
 		if (!fold_agg(c, level, out, el)) { f.why = "level out of range"; return f; }
 		cur = out; level = el;
